@@ -526,7 +526,7 @@ theorem recvTrailers_sent (H : Http) (l : List FieldLine) (hl : ∀ f ∈ l, Reg
 theorem lines_qfields (l : List FieldLine) : lines (qfields l) = l := by
   simp [lines, qfields, List.map_map, Function.comp_def]
 
-/-- octets, Huffman codings that fit a `Vec` (C11's `Encodable`) -/
+/-- octets, Huffman codings shorter than 2^29 − 2 octets (C11's `Encodable`: what `prefix_string::decode` accepts) -/
 def FieldsEncodable (l : List FieldLine) : Prop :=
   ∀ f ∈ l, H3.Qpack.Lemmas.Encodable ⟨f.1, f.2⟩
 
@@ -551,7 +551,7 @@ theorem fieldSection_wf (h : Header) (henc : FieldsEncodable h.wireFields) :
     simp only [qfields, List.mem_map] at hf
     obtain ⟨g, hg, rfl⟩ := hf
     exact henc g hg
-  exact (H3.Props.C11.C11_encode_then_rfc_decode_closed _ hfs).2.2.2.1
+  exact (H3.Props.C11.C11_encode_then_rfc_decode_closed _ (fun f hf => (hfs f hf).writable)).2.2.2.1
 
 theorem decodeWith_fieldSection {α : Type} (parse : List FieldLine → Headers.Res α) (h : Header)
     (henc : FieldsEncodable h.wireFields) (max : Nat) (hsz : sectionSize h.wireFields ≤ max) :
